@@ -612,6 +612,43 @@ pub struct Coverage {
     pub extra: Value,
 }
 
+fn rust_lit(cps: &[u32]) -> String {
+    let mut o = String::from("\"");
+    for c in cps {
+        match char::from_u32(*c) {
+            Some(ch) if ch.is_ascii_alphanumeric() || ch == ' ' => o.push(ch),
+            _ => o.push_str(&format!("\\u{{{:x}}}", c)),
+        }
+    }
+    o.push('"');
+    o
+}
+
+/// a plain unit test that replays the case without the explorer (best effort, per operation)
+fn unit_test_for(v: &Violation) -> String {
+    let c = &v.case;
+    let s0 = c.strs.first().map(|s| rust_lit(s)).unwrap_or_else(|| "\"\"".into());
+    let s1 = c.strs.get(1).map(|s| rust_lit(s)).unwrap_or_else(|| "\"\"".into());
+    let prof = c.extra.as_str().map(|s| s.to_string()).or_else(|| c.extra.get(0).and_then(|x| x.as_str()).map(|s| s.to_string())).unwrap_or_default();
+    let body = match c.op.as_str() {
+        "prepare" | "enforce" => format!("let r = precis_profiles::{}::new().{}({});", prof, c.op, s0),
+        "compare" => format!("let r = precis_profiles::{}::new().compare({}, {});", prof, s0, s1),
+        "rulefn" => format!("let r = precis_profiles::{}::new().{}({});", prof, c.extra.get(1).and_then(|x| x.as_str()).unwrap_or("?"), s0),
+        "dir" => format!("let r = precis_profiles::{}::new().directionality_rule({});", prof, s0),
+        "allows" => format!("let r = precis_core::{}Class::default().allows({});", prof, s0),
+        "rule" => format!("let r = precis_core::context::{}({}, {});", prof, s0, c.nums.first().copied().unwrap_or(0)),
+        "classify" => format!("let r = (precis_core::IdentifierClass::default().get_value_from_codepoint({0:#x}), precis_core::FreeformClass::default().get_value_from_codepoint({0:#x}));", c.nums.first().copied().unwrap_or(0)),
+        "op" => format!("// operation {} on the input below; see case.extra\n    let s = {};\n    let r = precis_profiles::Nickname::new().enforce(s);", c.extra, s0),
+        _ => return String::new(),
+    };
+    format!(
+        "use precis_core::profile::{{Profile, Rules}};\nuse precis_core::StringClass;\n#[test]\nfn replay() {{\n    {}\n    // expected: {}\n    // observed: {}\n    panic!(\"{{:?}}\", r);\n}}\n",
+        body,
+        v.expected.replace('\n', " "),
+        v.actual.replace('\n', " ")
+    )
+}
+
 fn write_replay(run: &Run, v: &Violation, n: usize) -> PathBuf {
     let dir = out_dir().join("replays").join(&run.prop);
     let _ = fs::create_dir_all(&dir);
@@ -623,6 +660,7 @@ fn write_replay(run: &Run, v: &Violation, n: usize) -> PathBuf {
         "expected": v.expected,
         "actual": v.actual,
         "replay_cmd": format!("./check {} --replay <this file>", run.prop),
+        "unit_test": unit_test_for(v),
     });
     let text = serde_json::to_string_pretty(&body).unwrap();
     // name by content hash (FNV) so the same case maps to the same file
